@@ -197,7 +197,13 @@ def evaluate_drawn(case):
 @st.composite
 def tiny_cases(draw, tier):
     k = draw(st.sampled_from([10, 9, 8, 7, 6, 5, 9, 10] if tier == "quick" else [10, 9, 8, 7, 6, 11, 10, 9]))
-    return {"k": k, "vertices": draw(gens.tiny_masks(k)), "t": draw(st.sampled_from([1, 1, 1, 2])),
+    vertices, levels = draw(gens.tiny_masks(k)), 0
+    shape = draw(st.sampled_from(["circles", "circles", "cascade", "cascade+circles"]))
+    if shape != "circles":
+        # a chain of diamonds that dies level by level: one round of the threshold-1 reach-pruning per level
+        chain, levels = draw(gens.cascade_vertices(k))
+        vertices = sorted(set(chain) | set(vertices)) if shape == "cascade+circles" else chain
+    return {"k": k, "vertices": vertices, "t": draw(st.sampled_from([1, 1, 1, 2])), "levels": levels,
             "bool": draw(st.booleans()), "verbose": k <= 8 and draw(st.sampled_from([True, True, False]))}
 
 
@@ -212,6 +218,8 @@ def evaluate_tiny(case):
     labels = ["k=%d" % k, "t=%d" % t, "graph" if expected else "error_path"]
     if case["verbose"]:
         labels.append("verbose")
+    if case.get("levels", 0) >= 5 and t == 1 and pruned:
+        labels.append("t1_cascade>=5_levels")
     if expected and len(expected) * 20000 < n:
         labels.append("graph_below_0.005%")
     mask = numpy.zeros(n, dtype=bool if case["bool"] else int)
@@ -273,8 +281,8 @@ SUBCHECKS = [
     SubCheck("drawn_masks", evaluate_drawn, strategy=drawn_cases, examples=(1500, 20000), shards=(8, 16),
              floors={"multi_round_trim": 50, "t1_reach_pruning": 5, "error_path": 50, "submask_graph": 100},
              rule=RULE),
-    SubCheck("large_k_tiny_graphs", evaluate_tiny, strategy=tiny_cases, examples=(48, 600), shards=(16, 16),
-             floors={"graph": 10, "verbose": 5, "k=10": 3, "k=9": 3}, rule=RULE, timeout=300.0),
+    SubCheck("large_k_tiny_graphs", evaluate_tiny, strategy=tiny_cases, examples=(96, 800), shards=(16, 16),
+             floors={"graph": 10, "verbose": 5, "k=10": 3, "k=9": 3, "t1_cascade>=5_levels": 5}, rule=RULE, timeout=300.0),
     SubCheck("oracle_selfcheck", evaluate_selfcheck, strategy=selfcheck_cases, examples=(400, 2000), shards=(4, 8),
              rule="fixed-point oracle == union of all subsets satisfying the stated closure (brute force)"),
 ]
@@ -286,7 +294,9 @@ LEVEL_TEXT = ("Exhaustive for observed length 2 (all 65,536 masks x 4 thresholds
               "for orders 1, 3, 4 (5 in thorough): the returned accessor must equal the independently computed "
               "largest closed sub-graph entry by entry, the vertex description must denote exactly the rows with "
               "arcs, ValueError exactly when that sub-graph is empty, the mask bit-for-bit unchanged; monotonicity "
-              "under sub-masks and agreement with latter-map trimming for t >= 2 are checked on the same cases. The "
+              "under sub-masks and agreement with latter-map trimming for t >= 2 are checked on the same cases; at orders 5..10 (11) small "
+              "graphs from circular strings and chains of up to 12 diamonds that the threshold-1 pruning must peel "
+              "off one round per level. The "
               "oracle itself is validated against a brute-force enumeration of subsets on every run.")
 LEVEL_NOTE = ("Trusted: the closure oracle in pbt/oracles.py (validated against literal subset enumeration for k = 1 "
               "and small k = 2 masks). Orders >= 3 are sampled, not enumerated.")
